@@ -50,3 +50,11 @@ def cases(rng, tier):
         ws = {1, 2, 5, 6, N - 1, N, N + 1, N + 2, N + 3, rng.randint(1, N + 3), rng.randint(1, N + 3)}
         for w in sorted(x for x in ws if x >= 1):
             yield Case(block(s, w, rng), {"kind": kind}, nontrivial=(w <= N))
+    # raw constructor arguments with white space (blocks of ten, line breaks, tabs): same answers as the normalised word
+    for kind, s in gen.rand_seqs(rng, 20 if tier == "quick" else 200, 50):
+        yield Case(gen.ws_lines(block(s, rng.randint(1, len(s)), rng), rng), {"kind": "whitespace-input"})
+    # long sequences with > 127 / > 255 charged or neutral residues, net charge beyond +-127, length > 256
+    for s in gen.large_regime()[:8 if tier == "quick" else 16]:
+        for w in (127, 128, 129, 200, len(s)):
+            if w <= len(s):
+                yield Case(block(s, w, rng), {"kind": "large-regime"})
